@@ -3,7 +3,7 @@
    Tier S: every Num / every oracle valuation (NaN, exceptions included).  Tier O: TotalPreorderOn notnan
    (+ NanUnordered for arrays holding NaN); both are PROVED for binary64 and the `_float` theorems are closed. *)
 From Coq Require Import ZArith List Arith Bool PrimFloat.
-From Knee Require Import Num NumFloat NpList OrdLaws FloatOrder Model.Detectors Proofs.ListFacts Proofs.ArgFacts Proofs.DetectorsFacts.
+From Knee Require Import Num NumFloat NpList OrdLaws FloatOrder Model.Detectors Model.DetectorsError Proofs.ListFacts Proofs.ArgFacts Proofs.DetectorsFacts.
 Import ListNotations.
 Local Open Scope num_scope.
 
@@ -171,6 +171,47 @@ Theorem C09_lmethod_knee_holds_float : forall n (lerr : nat -> nat -> oval float
 Proof. exact lmethod_knee_holds_float. Qed.
 Print Assumptions C09_lmethod_knee_holds_float.
 
+(* ------------------------------------------------------------------ L-method with the criterion DERIVED in the model
+   (lm_error: end-point / least-squares residuals, length ratios, rmse / rss combination; the only oracle is np.polyfit's
+   residual `polyres`, about which nothing is assumed) *)
+Theorem C09_lmethod_get_knee_derived_range : forall (N : Num) (xs ys : list (T N)) polyres fit cost k,
+  lm_get_knee_derived xs ys polyres fit cost = OVal k -> 3 <= length xs /\ 2 <= k <= Nat.max 2 (length xs - 3).
+Proof. exact @lm_get_knee_derived_range. Qed.
+Print Assumptions C09_lmethod_get_knee_derived_range.
+Theorem C09_lmethod_get_knee_derived_spec : forall (N : Num) (xs ys : list (T N)) polyres,
+  TotalPreorderOn (@notnan N) -> NanUnordered N -> forall fit cost k,
+  lm_get_knee_derived xs ys polyres fit cost = OVal k ->
+  lm_first_min_b (lm_error xs ys polyres fit cost (length xs)) (length xs) k = true.
+Proof. exact @lm_get_knee_derived_spec. Qed.
+Print Assumptions C09_lmethod_get_knee_derived_spec.
+Theorem C09_lmethod_knee_derived_total : forall (N : Num) (xs ys : list (T N)) polyres fit it limit,
+  2 <= length xs -> within (lmethod_knee_res_derived xs ys polyres fit it limit) (lm_iter_bound (length xs) it).
+Proof. exact @lmethod_knee_derived_total. Qed.
+Print Assumptions C09_lmethod_knee_derived_total.
+Theorem C09_lmethod_knee_derived_interior : forall (N : Num) (xs ys : list (T N)) polyres fit it limit k,
+  4 <= length xs -> res_knee (lmethod_knee_res_derived xs ys polyres fit it limit) = Some k -> 1 <= k /\ k + 2 <= length xs.
+Proof. exact @lmethod_knee_derived_interior. Qed.
+Print Assumptions C09_lmethod_knee_derived_interior.
+Theorem C09_lmethod_knee_holds_derived_float : forall (xs ys : list float) (polyres : nat -> nat -> oval float) fit it limit,
+  5 <= length xs ->
+  (forall m, 3 <= m <= length xs ->
+     Forall (fun i => oval_is_val (@lm_error FloatNum xs ys polyres fit CostRmse m i) = true) (lm_cands m)) ->
+  @lmethod_knee_holds FloatNum (length xs) (@lm_error FloatNum xs ys polyres fit CostRmse) it limit
+                      (@lmethod_knee_res_derived FloatNum xs ys polyres fit it limit) = 0%Z.
+Proof. exact lmethod_knee_holds_derived_float. Qed.
+Print Assumptions C09_lmethod_knee_holds_derived_float.
+(* with end-point lines and RSS the derived criterion is a value at every split point of the prefix *)
+Theorem C09_lm_error_point_rss_val : forall (N : Num) (xs ys : list (T N)) polyres m i,
+  i < m -> exists v, lm_error xs ys polyres FitPoint CostRss m i = OVal v.
+Proof. exact @lm_error_point_rss_val. Qed.
+Print Assumptions C09_lm_error_point_rss_val.
+(* the bit-for-bit conjunct (library composite = derived value) holds of the model's own table *)
+Theorem C09_lm_table_same_refl : forall (derived : nat -> nat -> oval float) (keys : list (nat * nat)),
+  Forall (fun k => derived (fst k) (snd k) <> OMissing) keys ->
+  lm_table_same_b f_same derived (map (fun k => (fst k, snd k, derived (fst k) (snd k))) keys) = true.
+Proof. exact lm_table_same_refl. Qed.
+Print Assumptions C09_lm_table_same_refl.
+
 (* ------------------------------------------------------------------ non-vacuity (binary64, evaluated) *)
 Example C09_example_curvature :
   @curvature_knee FloatNum [0x1p+0; 0x1p-1; 0x1.8p+1; 0x1p+0; 0x1p+2]%float = Some 2 /\
@@ -202,4 +243,14 @@ Example C09_example_lmethod :
   @lmethod_knee_res FloatNum 8 lerr RefAdjusted 4 = Ok [3; 3] /\
   @lmethod_knee_holds FloatNum 8 lerr RefAdjusted 4 (Ok [3; 3]) = 0%Z /\
   @lmethod_knee_holds FloatNum 8 lerr RefAdjusted 4 (Ok [4; 4]) = 4%Z.
+Proof. vm_compute. auto. Qed.
+Example C09_example_derived :
+  let xs := [0x0p+0; 0x1p+0; 0x1p+1; 0x1.8p+1; 0x1p+2; 0x1.4p+2; 0x1.8p+2]%float in
+  let ys := [0x1p+3; 0x1p+2; 0x1p+1; 0x1p+0; 0x1p+0; 0x1p+0; 0x1p+0]%float in
+  let nores := fun a b : nat => @OMissing float in
+  @lm_get_knee_derived FloatNum xs ys nores FitPoint CostRmse = OVal 2 /\
+  @lmethod_knee_res_derived FloatNum xs ys nores FitPoint RefAdjusted 4 = Ok [2; 2] /\
+  oval_is_val (@lm_error FloatNum xs ys nores FitPoint CostRss 7 3) = true /\
+  @lm_error FloatNum xs ys (fun a b => ORaise) FitBest CostRss 7 3 = ORaise /\
+  @lmethod_knee_holds FloatNum 7 (@lm_error FloatNum xs ys nores FitPoint CostRmse) RefAdjusted 4 (Ok [2; 2]) = 0%Z.
 Proof. vm_compute. auto. Qed.
